@@ -3,7 +3,7 @@ from props import matcher_common as mc
 
 NAMESPACE = 'C07'
 LEAN_TARGETS = ['MxV.Props.C07']
-THEOREMS = ['C07_reject_needed_flat', 'C07_reject_needed_rootChoice', 'C07_complete_rootChoice']
+THEOREMS = ['C07_reject_needed_flat', 'C07_reject_needed_rootChoice', 'C07_complete_rootChoice', 'templates_min_le_max', 'C07_complete_flat']
 TRUSTED_BASE = ['Lean 4.33.0 kernel', 'axioms: propext, Quot.sound, Classical.choice only (audited per theorem)',
                 'translator extract/*.py (templates regenerated every run)',
                 'correspondence harness (real library vs Mfull on all 94 types, vs Msimple on the 68 Tame types)']
